@@ -16,15 +16,16 @@
 import z3
 from vc.sorts import *  # noqa
 from vc.spec import *  # noqa
-from vc.speclemmas import LIB as _LIB0, STREAM, PUBL, AX, flat_ax
+from vc.speclemmas import LIB as _LIB0, STREAM, PUBL, MAPL, AX, flat_ax, pushall
 from vc import sm
 from vc.engine import SV, SymRaise, Unsupported, PathEnd
-from vc.pyfe import Interp, Obj, OutLog, LoopContract, SymDict, PATTERN_MODULE
+from vc.pyfe import Interp, Obj, OutLog, LoopContract, SymDict, PATTERN_MODULE, _MapView
 from contracts.interp_sim import METHODS, PHASE_NO, PHASES_OF, SI, _proved
 
 LIB = dict(_LIB0)
 LIB.update(STREAM)
 LIB.update(PUBL)
+LIB.update({k: v for k, v in MAPL.items() if v is not None})
 PFILE = 'generation/src/proof_generation/proof.py'
 PMOD = 'proof_generation.proof'
 IFILE = 'generation/src/proof_generation/interpreter.py'
@@ -95,6 +96,8 @@ class SubLoop(LoopContract):
         self.j, self.subs, self.cls = j, subs, cls
 
     def entry(self, interp, ctx, env, it):
+        if not (isinstance(it, SV) and it.kind == 'idl' and it.t.eq(self.subs)):
+            raise Unsupported('the loop does not run over self._submodules: the loop contract does not apply')
         self.J1 = self.j.t
 
     def arbitrary_iteration(self, interp, ctx, env, it):
@@ -124,6 +127,8 @@ class ListLoop(LoopContract):
         self.view = ex_stack(lst) if rev else ex_mem(lst)
 
     def entry(self, interp, ctx, env, it):
+        if not (isinstance(it, SV) and it.kind == ('plist_rev' if self.rev else 'plist') and it.t.eq(self.lst)):
+            raise Unsupported('the loop does not run over the declared list in the declared direction: the loop contract does not apply')
         self.J1 = self.j.t
 
     def arbitrary_iteration(self, interp, ctx, env, it):
@@ -252,6 +257,47 @@ class PatternIH:
         return r
 
 
+class ValuesLoop(LoopContract):
+    """for inst in subst.values(): self.pattern(inst)   - invariant in 'remaining work' form, which needs no prefix function:
+           pushall(expand*(remaining map), ex_stack(stack now))  ==  pushall(expand*(whole map), ex_stack(stack at entry))
+    i.e. whatever is still to be pushed, pushed on what is there now, is the final stack.  One iteration preserves it by unfolding pushall once;
+    at exit (nothing remaining) the stack IS the final stack.  pushall_views then relates the final stack to the plugs the tracker expects."""
+    def __init__(self, tr, m):
+        self.tr, self.m = tr, m
+
+    def entry(self, interp, ctx, env, it):
+        if not (isinstance(it, _MapView) and it.which == 'values' and it.m.t.eq(self.m)):
+            raise Unsupported('the loop is not `for .. in <the notation map>.values()`: the loop contract does not apply')
+        self.X0 = ex_stack(interp.plist_of(self.tr.attrs['stack']))
+        self.G = pushall(expandmap(self.m), self.X0)
+        self.mem0 = ex_mem(interp.plist_of(self.tr.attrs['memory']))
+
+    def arbitrary_iteration(self, interp, ctx, env, it):
+        r = ctx.fresh('pmap', 'remaining')
+        st = ctx.fresh('plist', 'stack_now')
+        ctx.assume(z3.And(PMp.is_('pcons', r.t), pmwf(r.t), ptl_wf(st.t), pushall(expandmap(r.t), ex_stack(st.t)) == self.G))
+        self.tr.attrs['stack'] = st
+        self.r = r
+        return SV(PMp.get('pcons', 'pval', r.t), 'ppat')
+
+    def after_iteration(self, interp, ctx, env, it, elem):
+        now = ex_stack(interp.plist_of(self.tr.attrs['stack']))
+        ctx.oblige('loop-inv:what remains to be pushed, pushed on the stack as it is now, is the final stack', pushall(expandmap(PMp.get('pcons', 'ptl', self.r.t)), now) == self.G, kind='inv')
+        if 'memory_after' not in str(self.tr.attrs['memory'].t):
+            ctx.oblige('loop-inv:memory untouched', ex_mem(interp.plist_of(self.tr.attrs['memory'])) == self.mem0, kind='inv')
+        ctx.oblige('loop-inv:stack stays well-formed', ptl_wf(interp.plist_of(self.tr.attrs['stack'])), kind='inv')
+
+    def exit(self, interp, ctx, env, it):
+        st = ctx.fresh('plist', 'stack_after_plugs')
+        ctx.assume(z3.And(ptl_wf(st.t), ex_stack(st.t) == self.G))
+        self.tr.attrs['stack'] = st
+        M_ = expandmap(self.m)
+        top = tl_taken(self.G, mlen(M_))
+        for ln, args in (('pushall_views', [M_, self.X0]), ('tl_allpat_eq', [top, ex_stack(pm_values(self.m))]), ('pm_values_pats', [self.m]), ('pm_values_allpat', [self.m]),
+                         ('mlen_nonneg', [M_]), ('mlen_zero', [M_])):
+            ctx.lemma_fact(ln, LIB[ln].inst(*args))
+
+
 def pattern_unit(repo, cs, ctor, wrapper, inst_k=None):
     """inst_k: for ctor == 'Instantiate', the number of entries of the notation's map (symbolic keys and plugs; a bound in that dimension)"""
     def unit(ctx):
@@ -285,7 +331,10 @@ def pattern_unit(repo, cs, ctor, wrapper, inst_k=None):
             ctx.assume(P.is_(ctor, p.t))
         contracts = dict(cs)
         contracts['Interpreter.pattern'] = PatternIH()
-        interp = Interp(repo, ctx, contracts)
+        loops = {}
+        if ctor == 'Instantiate' and inst_k is None:
+            loops[('Interpreter.pattern', 0)] = ValuesLoop(tr, P.get('Instantiate', 'inst', p.t))
+        interp = Interp(repo, ctx, contracts, opts={'loops': loops})
         f = (repo.cls('proof_generation.optimizing_interpreters', 'MemoizingInterpreter') if wrapper is True else repo.cls('proof_generation.interpreter', 'Interpreter')).find_method('pattern')
         if wrapper is True:
             ctx.assume(z3.BoolVal(True))
